@@ -7,6 +7,8 @@ import traceback
 
 sys.path.insert(0, os.path.dirname(os.path.abspath(__file__)))
 import vlib
+import logging
+logging.disable(logging.CRITICAL)
 
 
 def main():
